@@ -25,6 +25,7 @@ import (
 	"github.com/go-kid/ioc/app"
 	"github.com/go-kid/ioc/configure"
 	"github.com/go-kid/ioc/configure/loader"
+	"github.com/go-kid/ioc/definition"
 
 	"verifharness/hx"
 )
@@ -264,5 +265,26 @@ func main() {
 			outs = append(outs, runCase(c, true))
 		}
 	}
-	hx.WriteOutput(map[string]any{"outs": outs})
+	hx.WriteOutput(map[string]any{"outs": outs, "facts": loaderFacts()})
+}
+
+// loaderFacts reads the ordering class of the three loader kinds back from the real types
+// (the model's lclass: FileLoader = Priority with Order 0, Raw/Args loaders unordered).
+func loaderFacts() map[string]any {
+	class := func(l any) string {
+		o, ordered := l.(definition.Ordered)
+		if !ordered {
+			return "unordered"
+		}
+		if _, prio := l.(definition.Priority); prio {
+			return fmt.Sprintf("priority:%d", o.Order())
+		}
+		return fmt.Sprintf("ordered:%d", o.Order())
+	}
+	return map[string]any{
+		"file":  class(loader.NewFileLoader("/some/dir/application.yaml")),
+		"file2": class(loader.NewFileLoader("b.yaml")),
+		"raw":   class(loader.NewRawLoader([]byte("a: 1"))),
+		"args":  class(loader.NewArgsLoader([]string{"--app.config=a=1"})),
+	}
 }
